@@ -129,11 +129,19 @@ func solveAll(obs []*Obligation, dir string, timeoutS int, keep bool) {
 						}
 						if !done {
 							// arithmetic goals: array reads abstracted to scalars, with the integer-translating back end
-							if sc := sl.Scalarized(); sc != nil {
-								f2 := writeQuery(dir, o.Name+".scalar", sc.Script(nil))
+							for _, abs := range []bool{false, true} {
+								sc := sl.Scalarized(abs)
+								if sc == nil || done {
+									break
+								}
+								sfx := ".scalar"
+								if abs {
+									sfx = ".scalar-abs"
+								}
+								f2 := writeQuery(dir, o.Name+sfx, sc.Script(nil))
 								r2 := RunPortfolio(f2, 10, "+int")
 								if r2.Status == "unsat" {
-									r2.Solver += "+scalar"
+									r2.Solver += "+" + sfx[1:]
 									o.Res = r2
 									done = true
 								}
@@ -167,6 +175,21 @@ func solveAll(obs []*Obligation, dir string, timeoutS int, keep bool) {
 					}
 					if !keep {
 						os.Remove(f)
+					}
+					if !done && r.Status != "sat" {
+						// same query with multiplication/division abstracted to uninterpreted functions
+						if ab := qf.AbstractArith(); ab != nil {
+							fa := writeQuery(dir, o.Name+suffix+"-abs", ab.Script(nil))
+							ra := RunPortfolio(fa, ct, "")
+							if ra.Status == "unsat" {
+								ra.Solver += "+inst-abs"
+								o.Res = ra
+								done = true
+							}
+							if !keep {
+								os.Remove(fa)
+							}
+						}
 					}
 				}
 				if !done {
